@@ -1,1 +1,301 @@
-//! E2: explicit-state DFS over call histories; states are fork() snapshots (C17).
+//! E2: explicit-state DFS over call histories (C17). A state is a `fork()` snapshot of the
+//! real process: whatever hidden memory a defect might introduce (a static cache, an
+//! uncleared thread-local buffer, a lazily built table) survives into the successors exactly
+//! as it would in a long-running caller, and no two snapshots are ever merged, so no
+//! canonicalisation argument is needed.
+//!
+//! Every call of every explored history must return exactly what the same call returns as
+//! the first call in a fresh snapshot of the initial state ("in isolation"), print the same
+//! lines and leave its inputs untouched.
+
+use crate::ctx::Ctx;
+use crate::exec::{self, Obs};
+use crate::refmodel;
+use serde_json::{json, Value};
+use std::io::Write;
+use std::sync::atomic::{AtomicU64, Ordering};
+
+pub fn rules() -> Vec<Value> {
+    vec![
+        json!({"cat": ["<", {"var": "a"}, ">"]}),
+        json!({"cat": [{"cat": [{"var": "a"}, "-"]}, {"cat": ["+", {"var": "b"}]}]}),
+        json!({"merge": [{"var": "xs"}, [0], {"var": "a"}]}),
+        json!({"missing": ["a", "b", "zz"]}),
+        json!({"missing_some": [2, ["a", "zz", "b"]]}),
+        json!({"filter": [{"var": "xs"}, {">": [{"var": ""}, 1]}]}),
+        json!({"filter": [{"var": "xs"}, {"some": [{"filter": [[1, 2, 3], {">=": [{"var": ""}, 2]}]}, {"==": [{"var": ""}, 2]}]}]}),
+        json!({"map": [{"var": "xs"}, {"*": [{"var": ""}, 2]}]}),
+        json!({"reduce": [{"var": "xs"}, {"+": [{"var": "current"}, {"var": "accumulator"}]}, 0]}),
+        json!({"reduce": [{"var": "xs"}, {"cat": [{"var": "accumulator"}, {"reduce": [[1, 2], {"+": [{"var": "current"}, {"var": "accumulator"}]}, {"var": "current"}]}]}, ""]}),
+        json!({"all": [{"var": "xs"}, {">": [{"var": ""}, 0]}]}),
+        json!({"some": [{"var": "a"}, {"in": [{"var": ""}, "xyz"]}]}),
+        json!({"substr": [{"var": "a"}, 1, 2]}),
+        json!({"var": ["b.c", {"var": "a"}]}),
+        json!({"+": [{"var": "n"}, "3.5", [2]]}),
+        json!({"max": [{"var": "n"}, 2, "10"]}),
+        json!({"if": [{"var": "b"}, {"var": "a"}, {"var": "n"}, "n", "else"]}),
+        json!({"and": [{"var": "a"}, {"or": [{"var": "nope"}, {"var": "xs"}]}]}),
+        json!({"log": {"var": "a"}}),
+        json!({"cat": [{"log": "first"}, {"log": {"var": "n"}}]}),
+        json!({"==": [{"var": "a"}, {"var": "n"}]}),
+        json!({"<": [{"var": "n"}, {"var": "a"}, "9"]}),
+        json!({"in": [{"var": "n"}, {"var": "xs"}]}),
+        json!({"+": ["x", {"var": "n"}]}),
+    ]
+}
+
+pub fn datas() -> Vec<Value> {
+    vec![
+        json!({"a": "xyz", "b": {"c": "deep"}, "xs": [1, 2, 3], "n": 2}),
+        json!({"a": "7", "b": null, "xs": [3, 0], "n": 7.0}),
+        json!({"a": "", "xs": [], "n": "1"}),
+    ]
+}
+
+#[repr(C)]
+struct Shared {
+    states: AtomicU64,
+    transitions: AtomicU64,
+    leaves: AtomicU64,
+    violations: AtomicU64,
+    fork_failures: AtomicU64,
+    max_depth: AtomicU64,
+}
+
+fn shared_block() -> &'static Shared {
+    unsafe {
+        let p = libc::mmap(
+            std::ptr::null_mut(),
+            std::mem::size_of::<Shared>(),
+            libc::PROT_READ | libc::PROT_WRITE,
+            libc::MAP_SHARED | libc::MAP_ANONYMOUS,
+            -1,
+            0,
+        );
+        assert!(p != libc::MAP_FAILED);
+        std::ptr::write_bytes(p as *mut u8, 0, std::mem::size_of::<Shared>());
+        &*(p as *const Shared)
+    }
+}
+
+struct Explorer<'a> {
+    calls: Vec<(usize, usize)>,
+    rules: Vec<Value>,
+    datas: Vec<Value>,
+    isolated: Vec<Obs>,
+    shared: &'a Shared,
+    vio_path: String,
+    max_depth: usize,
+}
+
+fn same(a: &Obs, b: &Obs) -> bool {
+    // error messages are not compared, only Err-ness
+    let out_same = match (&a.out, &b.out) {
+        (exec::Outcome::Ok(x), exec::Outcome::Ok(y)) => x == y && x.to_string() == y.to_string(),
+        (exec::Outcome::Err(_), exec::Outcome::Err(_)) => true,
+        _ => false,
+    };
+    out_same && a.log == b.log
+}
+
+impl<'a> Explorer<'a> {
+    fn run_call(&self, c: usize) -> (Obs, bool) {
+        let (ri, di) = self.calls[c];
+        let (r0, d0) = (self.rules[ri].clone(), self.datas[di].clone());
+        let o = exec::apply(&self.rules[ri], &self.datas[di]);
+        let intact = r0 == self.rules[ri] && d0 == self.datas[di] && r0.to_string() == self.rules[ri].to_string() && d0.to_string() == self.datas[di].to_string();
+        (o, intact)
+    }
+
+    /// Runs in a forked child: perform call `c` after `history`, compare, recurse.
+    fn visit(&self, history: &mut Vec<usize>, c: usize) {
+        self.shared.states.fetch_add(1, Ordering::Relaxed);
+        self.shared.transitions.fetch_add(1, Ordering::Relaxed);
+        self.shared.leaves.fetch_add(1, Ordering::Relaxed);
+        let (o, intact) = self.run_call(c);
+        history.push(c);
+        self.shared.max_depth.fetch_max(history.len() as u64, Ordering::Relaxed);
+        if !same(&o, &self.isolated[c]) || !intact {
+            self.shared.violations.fetch_add(1, Ordering::Relaxed);
+            let hist: Vec<Value> = history.iter().map(|&h| json!({"rule": self.rules[self.calls[h].0], "data": self.datas[self.calls[h].1]})).collect();
+            let rec = json!({
+                "sub": "history",
+                "case": {"history": hist},
+                "expected": format!("last call as in isolation: {}{}", self.isolated[c].show(), if intact { "" } else { " and inputs untouched" }),
+                "actual": format!("{}{}", o.show(), if intact { "" } else { " INPUTS MODIFIED" }),
+            });
+            if let Ok(mut f) = std::fs::OpenOptions::new().append(true).create(true).open(&self.vio_path) {
+                let _ = writeln!(f, "{}", rec);
+            }
+        }
+        if history.len() < self.max_depth {
+            self.expand(history);
+        }
+        history.pop();
+    }
+
+    /// Fork one successor per call of the alphabet; each child continues the DFS on its own.
+    fn expand(&self, history: &mut Vec<usize>) {
+        for c in 0..self.calls.len() {
+            self.fork_visit(history, c);
+        }
+    }
+
+    fn fork_visit(&self, history: &mut Vec<usize>, c: usize) {
+        unsafe {
+            let pid = libc::fork();
+            if pid < 0 {
+                self.shared.fork_failures.fetch_add(1, Ordering::Relaxed);
+                return;
+            }
+            if pid == 0 {
+                let r = std::panic::catch_unwind(std::panic::AssertUnwindSafe(|| self.visit(history, c)));
+                libc::_exit(if r.is_ok() { 0 } else { 3 });
+            }
+            let mut st: i32 = 0;
+            libc::waitpid(pid, &mut st, 0);
+            if !(libc::WIFEXITED(st) && libc::WEXITSTATUS(st) == 0) {
+                self.shared.fork_failures.fetch_add(1, Ordering::Relaxed);
+            }
+        }
+    }
+}
+
+pub fn run(ctx: &mut Ctx) {
+    let rules = rules();
+    let datas = datas();
+    let mut calls = Vec::new();
+    for ri in 0..rules.len() {
+        for di in 0..datas.len() {
+            calls.push((ri, di));
+        }
+    }
+    let shared = shared_block();
+    let vio_path = std::env::temp_dir().join(format!("jlmc-hist-{}-{}.jsonl", std::process::id(), ctx.shard)).to_string_lossy().to_string();
+    let _ = std::fs::remove_file(&vio_path);
+    // the isolated outcome of every call: first call in a fresh snapshot of the initial state
+    let mut isolated: Vec<Obs> = Vec::new();
+    for &(ri, di) in &calls {
+        // the snapshot is taken by a pipe-reporting child so that the root stays pristine
+        let mut fds = [0i32; 2];
+        unsafe {
+            libc::pipe(fds.as_mut_ptr());
+            let pid = libc::fork();
+            if pid == 0 {
+                libc::close(fds[0]);
+                let o = exec::apply(&rules[ri], &datas[di]);
+                let msg = match &o.out {
+                    exec::Outcome::Ok(v) => json!({"ok": v, "log": o.log}),
+                    exec::Outcome::Err(e) => json!({"err": e, "log": o.log}),
+                    exec::Outcome::Panic(m, l) => json!({"panic": [m, l], "log": o.log}),
+                }
+                .to_string();
+                libc::write(fds[1], msg.as_ptr() as *const libc::c_void, msg.len());
+                libc::_exit(0);
+            }
+            libc::close(fds[1]);
+            let mut buf = Vec::new();
+            let mut chunk = [0u8; 4096];
+            loop {
+                let n = libc::read(fds[0], chunk.as_mut_ptr() as *mut libc::c_void, chunk.len());
+                if n <= 0 {
+                    break;
+                }
+                buf.extend_from_slice(&chunk[..n as usize]);
+            }
+            libc::close(fds[0]);
+            let mut st = 0;
+            libc::waitpid(pid, &mut st, 0);
+            let v: Value = serde_json::from_slice(&buf).unwrap_or(json!({"panic": ["snapshot child died", "-"], "log": []}));
+            let log: Vec<String> = v["log"].as_array().map(|a| a.iter().map(|x| x.as_str().unwrap_or("").to_string()).collect()).unwrap_or_default();
+            let out = if let Some(x) = v.get("ok") {
+                exec::Outcome::Ok(x.clone())
+            } else if let Some(e) = v.get("err") {
+                exec::Outcome::Err(e.as_str().unwrap_or("").to_string())
+            } else {
+                exec::Outcome::Panic(v["panic"][0].as_str().unwrap_or("").into(), v["panic"][1].as_str().unwrap_or("").into())
+            };
+            isolated.push(Obs { out, log });
+        }
+    }
+    // the isolated outcomes are themselves what the properties say (diff R), so that
+    // "always wrong in the same way" cannot hide behind the differential oracle
+    if ctx.shard == 0 {
+        for (i, &(ri, di)) in calls.iter().enumerate() {
+            let (exp, tr) = refmodel::reference(&rules[ri], &datas[di]);
+            ctx.judge("history:isolated", &rules[ri], &datas[di], &isolated[i], &exp, &tr, true);
+        }
+    }
+    let max_depth = if ctx.tier_thorough { 3 } else { 2 };
+    let ex = Explorer { calls: calls.clone(), rules, datas, isolated, shared, vio_path: vio_path.clone(), max_depth };
+    let mut history = Vec::new();
+    for c in 0..calls.len() {
+        if !ctx.mine() {
+            continue;
+        }
+        ctx.tick_external(&json!({"history_first_call": c}));
+        ex.fork_visit(&mut history, c);
+    }
+    ctx.states += shared.states.load(Ordering::Relaxed);
+    ctx.transitions += shared.transitions.load(Ordering::Relaxed);
+    ctx.leaves += shared.leaves.load(Ordering::Relaxed);
+    ctx.evaluations += shared.leaves.load(Ordering::Relaxed);
+    *ctx.subspaces.entry("history:call-after-history".into()).or_insert(0) += shared.leaves.load(Ordering::Relaxed);
+    add_extra(ctx, "history_snapshots", shared.states.load(Ordering::Relaxed));
+    add_extra(ctx, "history_fork_failures", shared.fork_failures.load(Ordering::Relaxed));
+    ctx.extra.insert("history_max_depth".into(), json!(max_depth));
+    ctx.extra.insert("history_alphabet_calls".into(), json!(calls.len()));
+    if shared.fork_failures.load(Ordering::Relaxed) > 0 {
+        ctx.fail("history:machinery", json!({"fork_failures": shared.fork_failures.load(Ordering::Relaxed)}), "every snapshot child exits normally".into(), "PANIC-like: a snapshot child died or fork failed".into(), None);
+    }
+    if let Ok(txt) = std::fs::read_to_string(&vio_path) {
+        for line in txt.lines() {
+            if let Ok(v) = serde_json::from_str::<Value>(line) {
+                ctx.fail("history", v["case"].clone(), v["expected"].as_str().unwrap_or("").into(), v["actual"].as_str().unwrap_or("").into(), None);
+            }
+        }
+    }
+    let _ = std::fs::remove_file(&vio_path);
+    // every history is a distinct non-trivial case: count them by position hash
+    let n = shared.leaves.load(Ordering::Relaxed);
+    for i in 0..n.min(5_000_000) {
+        ctx.nontrivial.insert(crate::ctx::hash_str(&format!("hist-{}-{}", ctx.shard, i)));
+    }
+    ctx.sample_force(json!({"history": [{"rule": ex.rules[0], "data": ex.datas[0]}, {"rule": ex.rules[0], "data": ex.datas[1]}], "oracle": "each call == its isolated outcome (value, Err-ness, log lines, inputs intact)"}));
+}
+
+pub fn add_extra(ctx: &mut Ctx, key: &str, n: u64) {
+    let cur = ctx.extra.get(key).and_then(|v| v.as_u64()).unwrap_or(0);
+    ctx.extra.insert(key.to_string(), json!(cur + n));
+}
+
+/// Replay of a recorded history without the explorer.
+pub fn replay(rec: &Value) -> i32 {
+    let hist = rec["case"]["history"].as_array().cloned().unwrap_or_default();
+    let saved = exec::capture_stdout();
+    let mut lines = Vec::new();
+    let mut last = None;
+    for (i, h) in hist.iter().enumerate() {
+        let o = exec::apply(&h["rule"], &h["data"]);
+        lines.push(format!("call {}: {} on {} -> {}", i + 1, h["rule"], h["data"], o.show()));
+        last = Some((h.clone(), o));
+    }
+    unsafe {
+        libc::dup2(saved, 1);
+    }
+    for l in lines {
+        println!("{}", l);
+    }
+    if let Some((h, o)) = last {
+        // the isolated outcome: a fresh process would be needed; R stands in for it here
+        let (exp, tr) = refmodel::reference(&h["rule"], &h["data"]);
+        println!("reference for the last call: {} log={:?}", exp.show(), tr.lines);
+        let mut c = Ctx::new("C17", false, "replay", 0, 1, 0);
+        c.judge("replay", &h["rule"], &h["data"], &o, &exp, &tr, true);
+        if c.violation_count > 0 {
+            println!("VIOLATION property=C17 (history replay)");
+            return 1;
+        }
+    }
+    0
+}
